@@ -108,6 +108,22 @@ def r4(ctx):
     ctx.check('is_kiss|stratum==0', ok, 'is_kiss no longer tests stratum == 0: %s' % vals, sample=vals)
 
 
+def is_kiss_all_versions(ctx):
+    """NtpPacket::is_kiss is `stratum == 0` of the header whatever its version (V3, V4 and V5): every kiss predicate and the catch-all arm of
+    handle_incoming hang on it, so a version for which it answers false has its kiss packets processed as time measurements."""
+    b = ctx.P.body(PKT + '::is_kiss')
+    rets = [(s, v) for s, v in ret_assigns(b)]
+    cov = set()
+    ok = bool(rets)
+    for s, v in rets:
+        m = re.match(r'^\((.*)\.stratum == 0\)$', v)
+        ok = ok and m is not None
+        if m:
+            cov |= set(re.findall(r'self\.header as (V\d)', m.group(1)))
+    ctx.check('is_kiss|stratum-zero-for-every-version', ok and cov == {'V3', 'V4', 'V5'}, 'is_kiss returns %s (versions covered by `stratum == 0`: %s)' % ([v for _, v in rets], sorted(cov)),
+              sample=[v for _, v in rets])
+
+
 def kiss_classes(ctx):
     """The kiss predicates partition kiss packets: handle_incoming tests RATE before DENY/RSTR, so a packet that is both would be
     handled as RATE and never set the DENY mark. NTPv3/4: each predicate is its own kiss code (is_rate/is_deny/is_rstr/is_ntsn of the
@@ -124,6 +140,7 @@ def kiss_classes(ctx):
             fam = 'V5' if b.must_pass(s.bb, is5) else 'V3V4'
             table.setdefault((nm, fam), []).append((s, v))
     code = {'is_kiss_deny': 'is_deny', 'is_kiss_rate': 'is_rate', 'is_kiss_rstr': 'is_rstr', 'is_kiss_ntsn': 'is_ntsn'}
+    is_kiss_all_versions(ctx)
     for nm, c in code.items():
         got = [v for _, v in table.get((nm, 'V3V4'), [])]
         ctx.check('%s|V3V4|own-code' % nm, got == ['ReferenceId::%s(NtpPacket::kiss_code(self))' % c], '%s for NTPv3/4 is %s' % (nm, got), sample=got)
